@@ -104,7 +104,7 @@ func WorkerMain(args []string) int {
 		emit(wireMsg{T: "case", I: i})
 		s.Run(c, i)
 		ran++
-		runtime.GC()
+		DrainFinalizers()
 	}
 	emit(wireMsg{T: "done"})
 	return 0
